@@ -334,6 +334,101 @@ def has_negdigit_class(n):
     return False
 
 
+def shape(n):
+    """Pattern shape with literals abstracted (c = ASCII literal, b = BMP non-ASCII, a = astral): the part of a
+    minimised engine-deviation case that goes into its signature."""
+    k = n[0]
+    if k == "chr":
+        return "c" if n[1] < 0x80 else ("b" if n[1] < 0x10000 else "a")
+    if k == "dot":
+        return "."
+    if k == "esc":
+        return "\\" + n[1]
+    if k == "cls":
+        kinds = sorted(set(("c" if it[1] < 0x80 else "b" if it[1] < 0x10000 else "a") if it[0] == "c" else "r" if it[0] == "r" else "\\" + it[1] for it in n[2]))
+        return "[" + ("^" if n[1] else "") + "".join(kinds) + "]"
+    if k == "wb":
+        return "\\B" if n[1] else "\\b"
+    if k == "bol":
+        return "^"
+    if k == "eol":
+        return "$"
+    if k == "grp":
+        return {"cap": "(", "non": "(?:", "named": "(?<>"}[n[1]] + shape(n[3]) + ")"
+    if k == "q":
+        return shape(n[1]) + n[5]
+    if k == "seq":
+        return "".join(shape(x) for x in n[1])
+    if k == "alt":
+        return "|".join(shape(x) for x in n[1])
+    if k == "la":
+        return ("(?!" if n[1] else "(?=") + shape(n[2]) + ")"
+    return "?"
+
+
+def shrink_candidates(n):
+    """Strictly smaller ASTs, one edit away."""
+    k = n[0]
+    if k in ("alt", "seq"):
+        items = n[1]
+        if len(items) > 1:
+            for i in range(len(items)):
+                yield (k, items[:i] + items[i + 1:])
+        for i, x in enumerate(items):
+            for y in shrink_candidates(x):
+                yield (k, items[:i] + [y] + items[i + 1:])
+    elif k == "q":
+        yield n[1]
+        for y in shrink_candidates(n[1]):
+            yield ("q", y) + tuple(n[2:])
+    elif k == "grp":
+        yield n[3]
+        for y in shrink_candidates(n[3]):
+            yield ("grp", n[1], n[2], y)
+    elif k == "cls":
+        if len(n[2]) > 1:
+            for i in range(len(n[2])):
+                yield ("cls", n[1], n[2][:i] + n[2][i + 1:])
+        if n[1]:
+            yield ("cls", False, n[2])
+
+
+def shrink_deviation(ast, flags, subj, holds, budget=90):
+    """Greedy delta debugging of (pattern AST, flags, subject) while `holds(ast, subj, flags)` stays true."""
+    evals = 0
+    changed = True
+    while changed and evals < budget:
+        changed = False
+        for cand in shrink_candidates(ast):
+            if evals >= budget:
+                break
+            evals += 1
+            if holds(cand, subj, flags):
+                ast, changed = cand, True
+                break
+        if changed:
+            continue
+        for i in range(len(subj)):
+            if evals >= budget:
+                break
+            cand_s = subj[:i] + subj[i + 1:]
+            evals += 1
+            if holds(ast, cand_s, flags):
+                subj, changed = cand_s, True
+                break
+        if changed:
+            continue
+        for ch in flags:
+            if evals >= budget:
+                break
+            cand_f = flags.replace(ch, "")
+            evals += 1
+            if holds(ast, subj, cand_f):
+                flags, changed = cand_f, True
+                break
+    return ast, subj, flags, evals
+
+
 def render_lean(ast, uflag):
     r = _Lean(uflag)
     toks = r.node(ast)
@@ -772,17 +867,30 @@ def valid_utf16(units):
     return all(not (0xD800 <= r <= 0xDFFF) for r, _ in py_decode(units))
 
 
-def find_path(hasre2, subj, uflag, start, limit):
-    """Which code path regexpPattern.findAllSubmatchIndex takes (regexp.go:159-194)."""
-    if not hasre2 or start != 0:
+def find_path_bits(hasre2, start0, ascii_subj, limit1, uflag, pmok):
+    """Which code path regexpPattern.findAllSubmatchIndex takes (regexp.go).  Cross-checked on every run against the
+    Lean `findAllRoute`, which Tie.tie_findAllRoute proves equal to the decision tree regenerated from the Go source."""
+    if not hasre2 or not start0:
         return "r2"
-    if is_ascii_subject(subj):
+    if ascii_subj:
         return "go"
-    if limit == 1:
+    if limit1:
         return "single"
-    if uflag and valid_utf16(subj):
+    if uflag and pmok:
         return "go"
     return "r2"
+
+
+def find_path(hasre2, subj, uflag, start, limit):
+    return find_path_bits(hasre2, start == 0, is_ascii_subject(subj), limit == 1, uflag, valid_utf16(subj))
+
+
+def check_routing_table(ctx, model):
+    import itertools
+    mine = "".join({"r2": "r", "go": "g", "single": "s"}[find_path_bits(*bits)] for bits in itertools.product([False, True], repeat=6))
+    theirs = run_sharded([model], ["routes"], 1, 120, 120)[0] if model else None
+    ctx.obligation("tie:routing table of run/c20.py = Lean findAllRoute (= tree regenerated from regexp.go, Tie.tie_findAllRoute)", "tie",
+                   theirs == mine, "python %s / lean %s" % (mine, theirs))
 
 
 def raw_rows(s):
@@ -1096,6 +1204,29 @@ def run_rx(ctx, h, model, cases, nproc=16):
                             # three-way arbitration: reference and linear engine agree exactly, regexp2 deviates.  Only without the u flag,
                             # where goja's glue around regexp2 copies rune indices unchanged (findSubmatchIndexUTF16).
                             sig = "engine:regexp2-deviates-nonunicode"
+                            try:
+                                def holds(a2, s2, f2):
+                                    if "u" in f2:
+                                        return False
+                                    c2 = {"id": "shrink", "flags": f2, "subject": s2, "starts": [0], "limit": 1, "template": "", "modes": "gexec"}
+                                    o2 = run_sharded([h], [rx_line(c2, "base", render_src(a2))], 1, 120, 120)[0]
+                                    d2 = parse_rx(o2)
+                                    if "tblr" not in d2 or d2["tblr"] == "-":
+                                        return False
+                                    toks2, ncap2, _ = render_lean(a2, False)
+                                    ro = run_sharded([model], ["ref %s %s %d 0 0 %s" % (f2 or "-", hx(s2), ncap2, toks2)], 1, 120, 120)[0]
+                                    if ro is None:
+                                        return False
+                                    ref2 = [None if r == "x" else [int(x) for x in r.split(".")] for r in ro.split("|")]
+                                    lin2 = [row_idx(r) for r in ([None if r == "na" else rows_of(r)[0] for r in d2["tblr"].split("|")])]
+                                    r22 = [row_idx(r) for r in rows_of(d2["tbl2"])]
+                                    return lin2 == ref2 and r22 != ref2
+                                a_min, s_min, f_min, evals = shrink_deviation(ast, fl, subj, holds)
+                                relevant = "".join(x for x in f_min if x in "ims")
+                                sig = "engine:regexp2-deviates:%s/%s" % (shape(a_min), relevant or "-")
+                                st.setdefault("shrunk", []).append({"pattern": render_src(a_min), "flags": f_min, "subject": hx(s_min), "evals": evals, "signature": sig})
+                            except Exception as e:          # shrinking is best effort; the unshrunk signature is not listed as known
+                                st.setdefault("shrink_errors", []).append(str(e)[:200])
                         elif span_diff:
                             sig = "engine:span:unexplained"
                         elif cap_diff <= set(render_lean(ast, "u" in fl)[2]) and (same(refs["ref"], r2) or same(refs["refp"], r2) or same(refs["ref"], lin) or same(refs["refp"], lin)):
@@ -1150,8 +1281,8 @@ def run_syntax(ctx, h):
 def main(ctx):
     regen_ok = ctx.regen()
     lean_ok, errs = ctx.lake_build(["GojaModel.C20.Props", "GojaModel.C20.Tie", "model_c20"])
-    ctx.audit("GojaModel.C20.Props", expect_min=21)
-    ctx.audit("GojaModel.C20.Tie", expect_min=2)
+    ctx.audit("GojaModel.C20.Props", expect_min=25)
+    ctx.audit("GojaModel.C20.Tie", expect_min=4)
     if ctx.tier == "thorough":
         ctx.leanchecker("GojaModel.C20.Props")
     ctx.log("lean done; building harness")
@@ -1199,6 +1330,8 @@ def main(ctx):
         if rng.random() < 0.7:
             c = clean_case(rng, c)
         cases.append(c)
+    if model:
+        check_routing_table(ctx, model)
     ctx.log("rx cases: %d" % len(cases))
     run_rx(ctx, h, model, cases)
     ctx.log("rx done")
